@@ -120,6 +120,7 @@ def run(ck):
             break
     ck.validated += len(vec) - bad
     qs = A.decide()
+    zone_variant(ck)
     for q in qs:
         if q.kind in ('claim', 'panic-obligations') and q.verdict == 'sat':
             handle_sat(ck, A, nat, q)
@@ -128,6 +129,62 @@ def run(ck):
     ck.samples += [{'query': q.name, 'meaning': q.meaning, 'verdict': q.verdict, 'seconds': round(q.secs, 2)} for q in qs if q.kind == 'claim'][:8]
     ck.explanation = ('Bounded symbolic checking with no bound beyond the machine types: the real MIR of the listed functions is encoded over '
                       'mathematical integers with every overflow/cast/division site as an obligation; each claim is the negated property and must be UNSAT.')
+
+
+def want_localtime(z, s, r):
+    """what DateTime::from_timespec(s, r, zone) must print (python references only)"""
+    import calref
+    l = z.lookup(s)
+    if l is None:
+        return 'err'
+    w = s + l[0]
+    if not (calref.MIN_T <= w <= calref.MAX_T):
+        return 'err'
+    return 'ok ' + ' '.join(map(str, calref.gmtime(w)[:6])) + f' {r} {s} {l[0]} {l[1]} -'
+
+
+def zone_variant(ck):
+    """Engine B: DateTime::from_total_nanoseconds(n, zone) for every i128 count with |seconds| < 2^70 and every table zone of the bound (the variant that
+    takes a zone cannot be encoded by Engine A: slices, binary search)"""
+    import engb, kprop
+    from engb import H
+    ck.bounds += ['c16_total_with_zone: zones with <= 2 transitions at arbitrary i64 times, 3 types with arbitrary i32 offsets, rule none or Fixed(any), no leap table; every i128 count with |seconds| < 2^70']
+    ck.stubs += ['S_split in c16_total_with_zone: total_nanoseconds_to_timespec := its contract (unique floor split, OutOfRange iff seconds do not fit i64) - discharged by split_exact / ok_iff_seconds_fit / err_is_out_of_range of this check for all i128',
+                 'S_pack: UtcDateTime::from_timespec := range gate + injective packing (C01); S_unreach for DST-rule arithmetic']
+    h = H('c16_total_with_zone', cap=1500, meaning='DateTime::from_total_nanoseconds(n, zone) = DateTime::from_timespec(floor(n/10^9), n mod 10^9, zone): same instant, nanoseconds, local time type and fields, same error; total_nanoseconds() gives n back')
+    B = engb.EngineB(ck)
+    B.run([h])
+    ck.samples.append({'harness': h.name, 'verdict': h.verdict, 'meaning': h.meaning, 'seconds': round(h.secs, 1)})
+    if h.verdict != 'FAILED':
+        return
+    vecs = B.playback(h)
+    if not vecs:
+        ck.inconclusive.append(f'{h.name} FAILED ({h.failed_checks[:3]}); concrete playback produced no values')
+        return
+    z, m = kprop.decode_zone(vecs, 2, with_c=False)
+    z.leaps = []
+    k = len(kprop.zone_layout(2)[1:]) - (0 if m.get('has_rule') else 2)
+    if len(vecs) <= k + 1:
+        ck.inconclusive.append(f'{h.name} FAILED; playback too short to decode the count')
+        return
+    n = engb.le_int(vecs[k], True) * NS + engb.le_int(vecs[k + 1], True)   # the harness builds the count from its floor split (s, r)
+    nat = common.Native()
+    # the solver's count and, since the stubbed split lets CBMC pick any failing count, its neighbours around the second boundary
+    cands = [n, n - 1, n + 1, n - (n % NS) - 1, n - (n % NS)]
+    for (tt, _) in z.tr:   # the decoded zone's own transition instants, one nanosecond either side (where a lookup on a mis-rounded second shows)
+        cands += [tt * NS - 1, tt * NS, tt * NS + 1]
+    for nn in cands:
+        s_, r_ = spec_split(nn)
+        cmd = f'localtime_total {z.cmd()} {nn}'
+        # seconds that do not fit i64: refused as OutOfRange whatever the zone says about the (truncated) instant
+        want = want_localtime(z, s_, r_) if I64[0] <= s_ <= I64[1] else 'err OutOfRange'
+        for o in nat.both([cmd])[0]:
+            if o.startswith('err zone') or o.startswith('err parse'):
+                break
+            if (want == 'err OutOfRange' and o != want) or (want == 'err') != o.startswith('err') or (not want.startswith('err') and not (o.startswith(want + ' ') and o.endswith(f'total={nn}'))):
+                ck.violation(f'{h.name}: `{cmd}` gives {o!r}; from_timespec on the floor split ({s_}, {r_}) prescribes {want!r}', {'cmd': cmd, 'want': want, 'total': nn, 'kind': 'zone-total'})
+                return
+    ck.inconclusive.append(f'{h.name} FAILED ({h.failed_checks[:2]}) but the decoded counterexample (zone {z.cmd()}, n={n}) does not reproduce natively')
 
 
 def handle_sat(ck, A, nat, q):
@@ -179,6 +236,11 @@ def replay(ck, case):
     c = case['case']
     out = nat.both([c['cmd']])[0]
     print('native (dev, release):', out)
+    if c.get('kind') == 'zone-total':
+        w = c['want']
+        bad = any((w == 'err OutOfRange' and o != w) or (w == 'err') != o.startswith('err') or (not w.startswith('err') and not (o.startswith(w + ' ') and o.endswith(f"total={c['total']}"))) for o in out)
+        print('want:', w, 'violates:', bad)
+        return 1 if bad else 0
     if 'n' in c:
         v, why = judge(out[0], c['n'])
         print('violates:', v, why)
